@@ -221,6 +221,9 @@ func init() {
 				if f.Go == "(embedded)" || f.JSON == "-" {
 					continue
 				}
+				if f.JSON == f.Go && f.Go[0] >= 'a' && f.Go[0] <= 'z' {
+					continue // unexported, untagged: never on the wire
+				}
 				fmt.Fprintf(&b, "@[simp] def %s_%s_name : List UInt8 := %s -- %q\n", label, f.Go, wireLeanBytes(f.JSON), f.JSON)
 				fmt.Fprintf(&b, "@[simp] def %s_%s_omit : Bool := %v\n", label, f.Go, f.Omit != "")
 			}
@@ -238,7 +241,29 @@ func init() {
 		emitStruct("textWire", c.localStruct("mcp", "TextContent", "MarshalJSON"), "mcp/content.go TextContent.MarshalJSON")
 		emitStruct("toolUseWire", c.localStruct("mcp", "ToolUseContent", "MarshalJSON"), "mcp/content.go ToolUseContent.MarshalJSON")
 		emitStruct("toolResultWire", c.localStruct("mcp", "ToolResultContent", "MarshalJSON"), "mcp/content.go ToolResultContent.MarshalJSON")
+		emitStruct("CallToolResult", c.namedStruct("mcp", "CallToolResult"), "mcp/protocol.go")
 		c.Fact("wire.structs", facts)
+
+		// Server.callTool: the guard under which a nil Content slice is replaced before the result is sent
+		guard := ""
+		if fd := c.Func("mcp", "Server", "callTool"); fd != nil && fd.Body != nil {
+			ast.Inspect(fd.Body, func(n ast.Node) bool {
+				is, ok := n.(*ast.IfStmt)
+				if !ok || guard != "" {
+					return guard == ""
+				}
+				for _, st := range is.Body.List {
+					if _, isAssign := st.(*ast.AssignStmt); isAssign && strings.Contains(c.Src(st), "Content = []Content{}") {
+						guard = c.Src(is.Cond)
+						return false
+					}
+				}
+				return true
+			})
+		}
+		// informational (not in facts/wire.expected.json: the engine also serves C02, which this guard
+		// does not concern; the r.call records of the mcp stream are what ties it)
+		c.Fact("wire.calltool_nil_content_guard", guard)
 
 		// the wire version tag
 		if v, ok := c.ConstString(j, "wireVersion"); ok {
